@@ -75,6 +75,21 @@ namespace {
          if (rng.coin(20)) std::this_thread::yield();
       }
       try { pp << static_cast<const ipr::Translation_unit&>(in.w.unit); } catch (const std::logic_error&) { }
+      // short-lived Lexicons of this thread's own that outgrow their first string pool and die while other threads do the same:
+      // whatever the allocator keeps between Lexicons must not be shared
+      for (int round = 0; round < 3; ++round) {
+         impl::Lexicon mine;
+         std::string big(700000, static_cast<char>('a' + t % 26));
+         auto& s1 = mine.get_string(vh::u8(big));
+         big[10] = '#';
+         auto& s2 = mine.get_string(vh::u8(big));
+         auto word = "after-rollover-" + std::to_string(t) + "-" + std::to_string(round);
+         auto& s3 = mine.get_string(vh::u8(word));
+         bool ok = s1.size() == 700000 and s2.size() == 700000 and *s1.begin() == static_cast<char8_t>('a' + t % 26)
+            and *(s2.begin() + 10) == u8'#' and vh::word(s3.characters()) == word and &mine.get_string(vh::u8(word)) == &s3;
+         os << (ok ? "[pool ok]" : "[POOL CORRUPTED]");
+         if (rng.coin(50)) std::this_thread::yield();
+      }
       out.printed = os.str();
       // reserved words (and the empty word) are process-wide constants too, whatever route returned them
       static const std::set<std::string> reserved { "", "...", "=0", "C", "C++", "auto", "bool", "char", "char16_t", "char32_t",
